@@ -41,7 +41,10 @@ def replace(
     encoding: str | None = None,
     errors: str | None = None,
 ) -> Generator[IO[Any], None, None]:
-    (fd, tempname) = tempfile.mkstemp(dir=str(path.parent))
+    # mkstemp() normalises "dir" lexically (abspath); resolve it first so the
+    # temporary file is created in the directory the guard has checked, even
+    # when the path contains "<symlink>/..".
+    (fd, tempname) = tempfile.mkstemp(dir=str(path.parent.resolve()))
     tempname = Path(tempname)
     try:
         fp = open(fd, mode, encoding=encoding, errors=errors)  # noqa: PTH123, SIM115
